@@ -279,7 +279,16 @@ impl Worker {
         Worker { child, stdin, stdout }
     }
     fn ask(&mut self, dir: &Path, lz4: bool) -> Option<String> {
-        let line = format!("open {} {} - 0\n", dir.display(), u8::from(lz4));
+        self.ask2(dir, lz4, &[], false)
+    }
+    fn ask2(&mut self, dir: &Path, lz4: bool, names: &[String], append: bool) -> Option<String> {
+        let line = format!(
+            "open {} {} {} {}\n",
+            dir.display(),
+            u8::from(lz4),
+            if names.is_empty() { "-".to_string() } else { names.join(",") },
+            u8::from(append && !names.is_empty())
+        );
         if self.stdin.write_all(line.as_bytes()).is_err() || self.stdin.flush().is_err() {
             return None;
         }
@@ -541,6 +550,12 @@ fn gen_program(mode: &str, seed: u64, idx: u64, thorough: bool) -> Plan {
         model.apply(&op);
         ops.push(op);
     }
+    if mode == "fault" && rng.chance(1, 2) && ops.len() > 8 {
+        // recovered (not freshly created) keyspace handles in the fault zone: one reopen in the first half;
+        // faults are then injected only after it (see fault_case)
+        let pos = rng.range(5, (ops.len() / 2).max(6) as u64) as usize;
+        ops.insert(pos.min(ops.len()), Op::Reopen { front });
+    }
     let desc = format!(
         "mode={mode} front={front} lz4={lz4} manual_persist={manual} journal_scale={scale} keyspaces={} ops={}",
         p.n_ks,
@@ -744,6 +759,9 @@ struct Verifier {
     digests: Vec<u64>,
     seen: BTreeSet<(u64, usize, usize, bool)>,
     lz4: bool,
+    /// after a successful recovery of this image: append three writes, reopen, compare again
+    /// ("the repaired journal is usable"); set per call
+    append_next: bool,
 }
 
 impl Verifier {
@@ -762,7 +780,21 @@ impl Verifier {
             return Ok(());
         }
         let dir = fs.materialize(power).map_err(|e| Deviation::new("inconclusive:io", format!("{e}")))?;
-        let reply = self.worker.ask(&dir, self.lz4);
+        let append = std::mem::take(&mut self.append_next);
+        // keyspaces that exist in every allowed prefix state (appending needs an existing keyspace)
+        let hi_c = hi.min(self.states.len() - 1);
+        let lo_c = lo.min(hi_c);
+        let names: Vec<String> = if append {
+            self.states[hi_c]
+                .keys()
+                .filter(|n| (lo_c..=hi_c).all(|p| self.states[p].contains_key(*n)))
+                .take(1)
+                .cloned()
+                .collect()
+        } else {
+            vec![]
+        };
+        let reply = self.worker.ask2(&dir, self.lz4, &names, append);
         rm_rf(&dir);
         stats.inc(if power { "images.power_loss" } else { "images.crash" });
         let kind = if power { "power-loss" } else { "crash" };
@@ -776,7 +808,31 @@ impl Verifier {
         if let Some(e) = reply.strip_prefix("panic ") {
             return Err(Deviation::new(format!("{kind}:open-panicked"), format!("{what}: {e}")));
         }
-        let got = parse_dump(reply.strip_prefix("ok ").unwrap_or("")).ok_or_else(|| Deviation::new("inconclusive:protocol", "bad dump"))?;
+        let (d1, d2) = if let Some(rest) = reply.strip_prefix("ok2 ") {
+            let mut it = rest.splitn(2, ' ');
+            (it.next().unwrap_or("").to_string(), it.next().map(str::to_string))
+        } else {
+            (reply.strip_prefix("ok ").unwrap_or("").to_string(), None)
+        };
+        let got = parse_dump(&d1).ok_or_else(|| Deviation::new("inconclusive:protocol", "bad dump"))?;
+        if let (Some(d2), Some(name)) = (d2, names.first()) {
+            // the repaired journal must keep what is appended to it
+            let got2 = parse_dump(&d2).ok_or_else(|| Deviation::new("inconclusive:protocol", "bad dump"))?;
+            let mut exp2 = got.clone();
+            for i in 0..3 {
+                exp2.entry(name.clone()).or_default().insert(format!("zz-appended-{i}").into_bytes(), format!("appended-{i}").into_bytes());
+            }
+            stats.inc("images.append_after_recovery_checked");
+            if got2 != exp2 {
+                return Err(Deviation::new(
+                    format!("{kind}:writes-after-recovery-lost"),
+                    format!(
+                        "{what}: after recovering the image, appending 3 writes, closing and reopening: {}",
+                        diff_dump(&got2, &exp2)
+                    ),
+                ));
+            }
+        }
         let dg = dump_digest(&got);
         let hi = hi.min(self.states.len() - 1);
         let lo = lo.min(hi);
@@ -907,6 +963,7 @@ fn crash_like_case(mode: &str, seed: u64, idx: u64, thorough: bool, stats: &mut 
             digests,
             seen: BTreeSet::new(),
             lz4: plan.lz4,
+            append_next: false,
         };
         // self-check: replaying the complete trace must reproduce the real directory
         let mut fs = FsImg::default();
@@ -1023,6 +1080,7 @@ fn crash_like_case(mode: &str, seed: u64, idx: u64, thorough: bool, stats: &mut 
                 }
             };
             if want_crash {
+                ver.append_next = mode == "crash" && rng.chance(1, 4);
                 let lo = if plan.manual { b.crash_safe } else { b.acked };
                 run_check(&mut ver, &fs, false, lo, b.started, what_base(""), stats)?;
             }
@@ -1040,6 +1098,7 @@ fn crash_like_case(mode: &str, seed: u64, idx: u64, thorough: bool, stats: &mut 
                     let mut f2 = fs.clone();
                     f2.apply(&run.root, r, Some(j));
                     stats.inc("images.torn_write_variants");
+                    ver.append_next = true;
                     run_check(
                         &mut ver,
                         &f2,
@@ -1146,23 +1205,53 @@ fn fault_case(seed: u64, idx: u64, thorough: bool, stats: &mut Counts) -> Result
     let n_writes = dry.recs.iter().filter(|r| r.kind == K_WRITE && is_journal(&r.p1)).count();
     let n_syncs = dry.recs.iter().filter(|r| (r.kind == K_FSYNC || r.kind == K_FDATASYNC) && is_journal(&r.p1)).count();
     let n_creates = dry.recs.iter().filter(|r| (r.kind == K_OPEN_CREATE || r.kind == K_TRUNCATE) && is_journal(&r.p1)).count();
+    // calls before the last reopen inside the program belong to the fault-free setup phase
+    let last_reopen_rec = {
+        let mut cur: Option<usize> = None;
+        let mut last = 0usize;
+        for (k, r) in dry.recs.iter().enumerate() {
+            if r.kind == K_MARK {
+                let t = String::from_utf8_lossy(&r.data).to_string();
+                let mut it = t.trim().split(' ');
+                match it.next() {
+                    Some("S") => cur = it.next().and_then(|x| x.parse().ok()),
+                    Some("A") => {
+                        if let Some(i) = cur {
+                            if matches!(plan.ops.get(i), Some(Op::Reopen { .. })) {
+                                last = k;
+                            }
+                        }
+                        cur = None;
+                    }
+                    _ => {}
+                }
+            }
+        }
+        last
+    };
+    let skip_w = dry.recs[..last_reopen_rec].iter().filter(|r| r.kind == K_WRITE && is_journal(&r.p1)).count();
+    let skip_s = dry.recs[..last_reopen_rec].iter().filter(|r| (r.kind == K_FSYNC || r.kind == K_FDATASYNC) && is_journal(&r.p1)).count();
+    let skip_c = dry.recs[..last_reopen_rec].iter().filter(|r| (r.kind == K_OPEN_CREATE || r.kind == K_TRUNCATE) && is_journal(&r.p1)).count();
+    if last_reopen_rec > 0 {
+        stats.inc("fault.programs_with_recovered_keyspaces");
+    }
     let mut rng = Rng::new(mix(&[seed, idx, 0x13]));
     let mut specs: Vec<String> = Vec::new();
     let cap = if thorough { 400 } else { 40 };
     let mut all: Vec<String> = Vec::new();
-    for n in 1..=n_writes {
+    for n in (skip_w + 1)..=n_writes {
         for what in ["5", "28", "short:7", "short:1"] {
             for m in ["once", "sticky"] {
                 all.push(format!("{n}:write:{what}:{m}"));
             }
         }
     }
-    for n in 1..=n_syncs {
+    for n in (skip_s + 1)..=n_syncs {
         for m in ["once", "sticky"] {
             all.push(format!("{n}:sync:5:{m}"));
         }
     }
-    for n in 1..=n_creates {
+    for n in (skip_c + 1)..=n_creates {
         all.push(format!("{n}:create:28:once"));
     }
     // sample without replacement
